@@ -323,3 +323,16 @@ contract(
                "locals": {"t": Opt(Ref("Task"))}}},
     modifies=[],
 )
+
+# ---- size of the project's working-time table ------------------------------------------------------------------------------
+contract(
+    PJ + "::Project.scoreboardSize", props=["C11", "C17"],
+    params={"self": Ref("Project")}, ret=Int,
+    requires=[("g", "PG(self) >= 1")],
+    ensures=[
+        ("board", "implies(self.scoreboard is not None and some(self.scoreboard).size != 0, result == some(self.scoreboard).size)"),
+        ("computed", "implies(self.scoreboard is None and self.attributes['start'] is not None and self.attributes['end'] is not None, "
+                     "result == trunc((secs(some(self.attributes['end'])) - secs(PStart(self))) / PG(self)) + 1)"),
+    ],
+    modifies=[],
+)
